@@ -83,17 +83,20 @@ def the_cps(ctx, u):
 
 
 def local_counters(bi):
-    """locals defined by `L = const` and `L = L + 1`:  L -> (init blocks, inc blocks, other def blocks)"""
+    """per-poll counters kept in a local:
+         up:    `L = 0`              and `L = L + 1`   (compared with the number of members)
+         down:  `L = <some count>`   and `L = L - 1`   (compared with 0)
+       L -> (init [(block, const or term)], step blocks, other def blocks); DIRECTION[L] = +1 / -1"""
     out = {}
     body = bi.body
     for L, defs in body.defs.items():
         live = [d for d in defs if d[0] in body.reachable and not body.is_cleanup(d[0])]
         if len(live) < 2 or body.local_tys(L) not in ("usize", "u32", "u64", "i32"):
             continue
-        init, inc, other = [], [], []
+        init, inc, dec, other = [], [], [], []
         for d in live:
             if d[2] != "assign":
-                other.append(d[0])
+                init.append((d[0], bi.T._of_def(L, d, 1)))      # e.g. the destination of `slab.len()`
                 continue
             rv = d[3]
             if rv["k"] == "use" and "c" in rv["op"] and rv["op"]["c"].get("v") is not None:
@@ -104,11 +107,22 @@ def local_counters(bi):
             tt = t[1] if t[0] == "field" and t[2] == 0 else t
             if tt[0] == "binop" and tt[1].startswith("Add") and ("phi", L) in (tt[2], tt[3]) and ("const", 1) in (tt[2], tt[3]):
                 inc.append(d[0])
+            elif tt[0] == "binop" and tt[1].startswith("Sub") and tt[2] == ("phi", L) and tt[3] == ("const", 1):
+                dec.append(d[0])
+            elif tt[0] not in ("binop",) and tt != ("phi", L):
+                init.append((d[0], tt))                          # a copy of some count
             else:
                 other.append(d[0])
-        if init and inc:
+        if init and inc and not dec:
             out[L] = (init, inc, other)
+            DIRECTION[(id(bi), L)] = 1
+        elif init and dec and not inc:
+            out[L] = (init, dec, other)
+            DIRECTION[(id(bi), L)] = -1
     return out
+
+
+DIRECTION = {}
 
 
 def rule_item(ctx, M, u):
@@ -279,15 +293,22 @@ def rule_none(ctx, M, u):
     else:
         L = cnt[0]
         init, inc, other = counters[L]
-        if other or [v for b, v in init] != [0] or (header is not None and not bi.body.dominates(init[0][0], header)) or \
-                (c.loop and init[0][0] in c.loop[1]):
-            probs.append("ended counter is not initialised to 0 once before the scan")
+        down = DIRECTION.get((id(bi), L)) == -1
+
         def is_count(t):
-            if t[0] == "call" and t[1] == ("Slab", "len") and t[2] and t[2][0] == sf("streams"):
+            if isinstance(t, tuple) and t[0] == "call" and t[1] == ("Slab", "len") and t[2] and t[2][0] == sf("streams"):
                 # read before the scan
                 return header is not None and bi.body.dominates(t[3], header) and not (c.loop and t[3] in c.loop[1])
             return False
-        guards = flow.edges_where(bi, ("phi", L), "Eq", is_count)
+        init_ok = len(init) == 1 and (is_count(init[0][1]) if down else init[0][1] == 0)
+        if other or not init_ok or (header is not None and not bi.body.dominates(init[0][0], header)) or \
+                (c.loop and init[0][0] in c.loop[1]):
+            probs.append("ended counter is not initialised to 0 once before the scan")
+        if down:
+            # counting down from the number of members read before the scan: all ended <=> the local reached 0
+            guards = flow.edges_where(bi, ("phi", L), "Eq", ("const", 0))
+        else:
+            guards = flow.edges_where(bi, ("phi", L), "Eq", is_count)
         if not guards:
             probs.append("no test ended == number of members (read before the scan)")
     nones = [r for r in flow.returned_values(bi) if r[1] == "Ready(None)"]
